@@ -43,7 +43,7 @@ func manifestHandler(raw json.RawMessage) (any, error) {
 	root := filepath.Join(base, "outer", "bundle")
 	os.MkdirAll(root, 0755)
 	os.WriteFile(filepath.Join(root, "terraform-sources.json"), []byte(arg.Doc), 0644)
-	for _, d := range []string{"d1", "d2"} {
+	for _, d := range []string{"d1", "d2", "d1x"} {
 		os.MkdirAll(filepath.Join(root, d, "m", "n"), 0755)
 	}
 	os.MkdirAll(filepath.Join(base, "outer", "bundle-evil"), 0755)
@@ -140,7 +140,7 @@ func manifestHandler(raw json.RawMessage) (any, error) {
 		})
 	}
 	// paths that do not belong to any package
-	for _, p := range []string{root, root + "/", filepath.Join(root, "terraform-sources.json"), filepath.Join(root, "unknown-dir", "x"), filepath.Dir(root), filepath.Join(filepath.Dir(root), "bundle-evil", "d1"), "/", filepath.Join(root, "..", "bundle-evil")} {
+	for _, p := range []string{root, root + "/", filepath.Join(root, "terraform-sources.json"), filepath.Join(root, "unknown-dir", "x"), filepath.Join(root, "d1zz", "x"), filepath.Join(root, "d1-other"), filepath.Join(root, "d"), filepath.Dir(root), filepath.Join(filepath.Dir(root), "bundle-evil", "d1"), "/", filepath.Join(root, "..", "bundle-evil")} {
 		guardf("SourceForLocalPath", func() {
 			src, err := b.SourceForLocalPath(p)
 			if err == nil {
@@ -210,10 +210,10 @@ func c18Docs(thorough bool) (docs []ManifestArg) {
 	locals := []string{"d1", "d2", "", ".", "..", "../x", "a/b", "/abs", "d1/", "..\\x", "../bundle-evil", "d1/../d2", "./d1", "d1/m"}
 	formats := []string{"1", "0", "2", "absent", `"1"`, "1.0", "-1", "18446744073709551617"}
 	src2 := []string{mA, mB, mAalias, "garbage"}
-	loc2 := []string{"d1", "d2", "..", "d1/x"}
+	loc2 := []string{"d1", "d2", "..", "d1/x", "d1x"}
 	probes := []string{mA, mA + "//m", mB + "//m/n", mAalias + "//m", "git::https://example.com/zzz.git", mReg + "@1.0.0", mReg + "@1.0.0//m", mReg + "@9.9.9"}
 	add := func(desc, doc string) {
-		docs = append(docs, ManifestArg{Doc: doc, Desc: desc, Probes: probes, Dirs: []string{"d1", "d2", "unknown"}})
+		docs = append(docs, ManifestArg{Doc: doc, Desc: desc, Probes: probes, Dirs: []string{"d1", "d2", "d1x", "unknown"}})
 	}
 	fs := formats[:1]
 	if thorough {
@@ -257,6 +257,8 @@ func c18Docs(thorough bool) (docs []ManifestArg) {
 	// duplicates / aliases
 	add("same source twice, different dirs", manifestDoc("1", []mPkg{{mA, "d1", "", ""}, {mA, "d2", "", ""}}, ""))
 	add("aliases sharing one dir, equal length", manifestDoc("1", []mPkg{{"git::https://example.com/x.git", "d1", "", ""}, {"git::https://example.com/y.git", "d1", "", ""}}, ""))
+	add("prefix-sharing directory names", manifestDoc("1", []mPkg{{mA, "d1", "", ""}, {mAalias, "d1x", "", ""}}, ""))
+	add("prefix-sharing directory names (longer address owns the shorter dir)", manifestDoc("1", []mPkg{{mAalias, "d1", "", ""}, {mA, "d1x", "", ""}}, ""))
 	add("three aliases", manifestDoc("1", []mPkg{{mA, "d1", "", ""}, {mAalias, "d1", "", ""}, {mB, "d1", "", ""}}, ""))
 	return
 }
